@@ -404,6 +404,10 @@ class Resolver:
             return ("ext", "super")
         if isinstance(fn, ast.Name) and fn.id == "cast" and len(e.args) == 2:
             return self.type_of(e.args[1], f, depth + 1)
+        if len(e.args) == 1 and not e.keywords and ast.unparse(fn) in ("copy.copy", "copy"):
+            imp = f.module.imports.get("copy")
+            if imp is not None and imp[0] == "ext" and imp[1] in ("copy", "copy.copy"):
+                return self.type_of(e.args[0], f, depth + 1)  # a shallow copy has the class of its argument
         # x.copy() keeps the type of x
         if isinstance(fn, ast.Attribute) and fn.attr == "copy":
             b = self.type_of(fn.value, f, depth + 1)
